@@ -66,7 +66,10 @@ let parse_arg tok =
        | Fault f -> raise (Setup (fault_name f)))
   | _ -> raise (Setup "invalid_argument")
 
+let is_sub c = String.length c > 1 && c.[0] = 's' && c.[1] >= '0' && c.[1] <= '9'
+
 let parse_cmd c =
+  if is_sub c then CmdSubHelp (nat_of_int (int_of_string (after "s" c))) else
   match c with
   | "ph" -> CmdPrintHidden | "pd" -> CmdPrintDeprecated
   | "hs" -> CmdHelpShort | "hl" -> CmdHelpLong
@@ -82,6 +85,8 @@ let () =
       | id :: toks when id <> "" ->
           let flags = ref 0 and width = ref 80 and cmds = ref [] and args = ref [] in
           let t1 = ref None and t2 = ref None in
+          (* sub-groups: (keyspec, flags, desc, arguments in reverse order), latest first *)
+          let groups = ref [] in
           let text spec =
             let pos = match spec.[0] with 'b' -> UBefore | 'a' -> UAfter | _ -> UUnused in
             Some (pos, bytes_of_hex (String.sub spec 2 (String.length spec - 2))) in
@@ -90,7 +95,14 @@ let () =
                  if starts "f=" t then flags := int_of_string (after "f=" t)
                  else if starts "w=" t then width := int_of_string (after "w=" t)
                  else if starts "c=" t then cmds := List.map parse_cmd (split_on ',' (after "c=" t))
-                 else if starts "a:" t then args := parse_arg t :: !args
+                 else if starts "a:" t then
+                   (match !groups with
+                    | [] -> args := parse_arg t :: !args
+                    | (k, fl, d, l) :: r -> groups := (k, fl, d, parse_arg t :: l) :: r)
+                 else if starts "g:" t then
+                   (match String.split_on_char ':' t with
+                    | [_; k; fl; d] -> groups := (k, int_of_string fl, bytes_of_hex d, []) :: !groups
+                    | _ -> raise (Setup "invalid_argument"))
                  else if starts "t1=" t then t1 := text (after "t1=" t)
                  else if starts "t2=" t then t2 := text (after "t2=" t)) toks;
              (match check_texts !t1 !t2 with
@@ -98,7 +110,16 @@ let () =
               | Err e -> raise (Setup (err_name e))
               | Fault f -> raise (Setup (fault_name f)));
              let _ = eval_case in
-             let r = eval_case_txt !t1 !t2 (n_of_int !flags) (nat_of_int !width) (List.rev !args) !cmds in
+             let sgs = List.rev_map (fun (k, fl, d, l) ->
+                 match parse_key (bytes_of_string k) with
+                 | Ok key -> { sg_key = key; sg_desc = d; sg_flags = n_of_int fl; sg_user = List.rev l }
+                 | Err e -> raise (Setup (err_name e))
+                 | Fault f -> raise (Setup (fault_name f))) !groups in
+             let r =
+               if sgs = [] then
+                 eval_case_txt !t1 !t2 (n_of_int !flags) (nat_of_int !width) (List.rev !args) !cmds
+               else
+                 eval_case_sg !t1 !t2 sgs (n_of_int !flags) (nat_of_int !width) (List.rev !args) !cmds in
              (match r with
               | Ok s ->
                   let o = unlines s.hout and e = unlines s.herr in
